@@ -17,6 +17,10 @@ var commonAssumptions = []string{
 }
 
 var propMeta = map[string]PropMeta{
+	"C10": {
+		NotCovered: "Pairwise distinctness over a whole stream is concluded outside the verifier from the proved per-call facts (one generator per stream, fresh id per event, strictly increasing private counter, id text determines the counter); the GET stream's single generator is by construction (one responder per connection) and not under contract. NotificationParams.MarshalJSON/UnmarshalJSON and encoding/json are not under contract, so 'parameters intact' is proved up to the value handed to json.Marshal and from the value json.Unmarshal produced. uint64 counter wrap-around is ignored.",
+		Assumptions: append([]string{"fmt.Sprintf(\"evt-%d-%d\", ts, n) prints n after the last '-' (idctr)", "the notification handler callback is counted once per invocation (ghost instrumentation) and (*bufio.Reader).ReadString delivers the stream's lines in order"}, commonAssumptions...),
+	},
 	"C08": {
 		NotCovered: "Wall-clock promptness, goroutine / file-descriptor / child-process counts, kill -9 and truncation at byte offsets are not expressible as contracts on these functions; the stdio reader's blocking Decode is ended by the pipe closing (os/exec, assumed). The emptying loop of the stdio close() (range-delete) is not proved to leave the table empty. That a stdio call which returns no error returns a non-nil result depends on what the reader sends on the channel (not under contract).",
 		Assumptions: append([]string{"net/http aborts an exchange and every read of its response body when the context the request was built with ends", "a context.CancelFunc ends its context; the stored body-close function of the SSE stream only closes that body", "(*exec.Cmd).Wait returns when the child has exited, however it exited", "cancellability obligations are structural (goal true/false from the select's cases), not semantic"}, commonAssumptions...),
